@@ -48,7 +48,7 @@ static void atexit_guard(void){ if(!exiting_ok){ printf("prop exit FAIL the libr
 
 int main(int argc,char **argv){
   FILE *f=fopen(argv[1],"r"); char *line; if(!f)return 2;
-  signal(SIGALRM,on_alarm); atexit(atexit_guard); (void)on_exit_called; setvbuf(stdout,NULL,_IOLBF,0);
+  vc_watch_init(on_alarm); atexit(atexit_guard); (void)on_exit_called; setvbuf(stdout,NULL,_IOLBF,0);
   { struct rlimit rl={ (rlim_t)8<<20,(rlim_t)8<<20 }; (void)rl; }     /* default 8 MiB stack is what the process already has */
   vorbis_info vi; vorbis_comment vc; vorbis_dsp_state vd; vorbis_block vb; int have=0,inited=0; long seqno=0;
   memset(&vd,0,sizeof vd); memset(&vb,0,sizeof vb);
@@ -58,10 +58,10 @@ int main(int argc,char **argv){
     if(!strcmp(tok[0],"case")){
       if(have){ if(inited){ vorbis_block_clear(&vb); vorbis_dsp_clear(&vd); inited=0; } vorbis_comment_clear(&vc); vorbis_info_clear(&vi); }
       static char id[64]; snprintf(id,sizeof id,"%s",tok[1]); curcase=id; printf("case %s\n",id);
-      vorbis_info_init(&vi); vorbis_comment_init(&vc); memset(&vd,0,sizeof vd); memset(&vb,0,sizeof vb); have=1; inited=0; seqno=0; alarm(150);
+      vorbis_info_init(&vi); vorbis_comment_init(&vc); memset(&vd,0,sizeof vd); memset(&vb,0,sizeof vb); have=1; inited=0; seqno=0; vc_watch(150);
     }else if(!strcmp(tok[0],"end")){
       if(have){ if(inited){ vorbis_block_clear(&vb); vorbis_dsp_clear(&vd); inited=0; } vorbis_comment_clear(&vc); vorbis_info_clear(&vi); vorbis_info_clear(&vi); have=0; }
-      alarm(0); fflush(stdout);
+      vc_watch(0); fflush(stdout);
     }else if(!strcmp(tok[0],"hdr")){
       long n; unsigned char *b=vc_unhex(tok[2],&n); ogg_packet op; memset(&op,0,sizeof op); op.packet=b; op.bytes=n; op.b_o_s=atoi(tok[1]);
       int rc=vorbis_synthesis_headerin(&vi,&vc,&op);
